@@ -3,8 +3,12 @@
    gen_vote_needs_preparing    record_vote() rejects unless tx.phase == TxPhase::Preparing, and rejects duplicates
    gen_prepare_writes_store    TxParticipant::prepare contains a store write
    gen_abort_applies_undo      TxParticipant::abort re-applies the undo log
-   gen_timeouts_any_phase      cleanup_timeouts filters on is_timed_out() only (any phase)
-   gen_participant_remembers   TxParticipant::prepare refuses a tx in `decided` before locking; commit and abort insert into it"""
+   gen_timeouts_spare_committing  cleanup_timeouts filters on is_timed_out() && phase != Committing (every other phase)
+   gen_participant_remembers   TxParticipant::prepare refuses a tx in `decided` before locking; commit and abort insert into it
+   gen_abort_refuses_committing   coordinator abort() returns Err for a Committing transaction before anything is logged
+   gen_recover_shape           coordinator recover(): nothing assigns tx.phase before the `match tx.phase`; the Committing and
+                               Aborting arms do not assign tx.phase; the Prepared arm assigns Committing only under tx.all_yes()
+   gen_sweeps_keep_decided     TxParticipant::cleanup_stale / recover never touch `decided`"""
 import os
 import re
 import sys
@@ -16,7 +20,8 @@ from rs2v import HEADER, find_fn, read, strip_comments  # noqa: E402
 def generate(repo):
     items = {}
     vals = {"gen_commit_needs_prepared": True, "gen_vote_needs_preparing": True, "gen_prepare_writes_store": False,
-            "gen_abort_applies_undo": True, "gen_timeouts_any_phase": True, "gen_participant_remembers": True}
+            "gen_abort_applies_undo": True, "gen_timeouts_spare_committing": True, "gen_participant_remembers": True,
+            "gen_abort_refuses_committing": False, "gen_recover_shape": False, "gen_sweeps_keep_decided": False}
     try:
         src = strip_comments(read(repo, "tensor_chain/src/distributed_tx.rs"))
     except Exception as ex:  # noqa: BLE001
@@ -54,8 +59,50 @@ def generate(repo):
 
         def timeouts_any():
             _, body = find_fn(src, "cleanup_timeouts", after=r"impl\s+DistributedTxCoordinator\b")
-            m = re.search(r"\.filter\s*\(\s*\|[^|]*\|\s*([^)]*\))\s*\)", body)
-            return bool(m and re.sub(r"\s+", "", m.group(1)) == "tx.is_timed_out()")
+            m = re.search(r"\.filter\s*\(\s*\|[^|]*\|\s*(.*?)\)\s*\.\s*map\s*\(", body, re.S)
+            return bool(m and re.sub(r"\s+", "", m.group(1)) == "tx.is_timed_out()&&tx.phase!=TxPhase::Committing")
+
+        def abort_refuses():
+            _, body = find_fn(src, "abort", after=r"impl\s+DistributedTxCoordinator\b")
+            m = re.search(r"if\s+from_phase\s*==\s*TxPhase::Committing\s*\{(.*?)\n\s*\}", body, re.S)
+            d = re.search(r"let\s+from_phase\s*=\s*tx\s*\.\s*phase\s*;", body)
+            return bool(m and d and "return Err" in m.group(1) and d.start() < m.start() < body.index("log_wal_entry"))
+
+        def recover_shape():
+            _, body = find_fn(src, "recover", after=r"impl\s+DistributedTxCoordinator\b")
+            loop = re.search(r"for\s*\(\s*tx_id\s*,\s*tx\s*\)\s*in\s+pending\s*\.\s*iter_mut\s*\(\s*\)", body)
+            mt = re.search(r"match\s+tx\s*\.\s*phase\s*\{", body)
+            if not (loop and mt and loop.start() < mt.start()):
+                raise KeyError("recover: loop / match not found")
+            ok = not re.search(r"tx\s*\.\s*phase\s*=[^=]", body[loop.end():mt.start()])
+            arms = body[mt.end():]
+
+            def arm(name):
+                m = re.search(r"TxPhase::%s\s*=>\s*\{" % name, arms)
+                if not m:
+                    raise KeyError("recover: arm %s not found" % name)
+                # body of the arm up to its matching brace
+                depth, i = 1, m.end()
+                while depth and i < len(arms):
+                    depth += {"{": 1, "}": -1}.get(arms[i], 0)
+                    i += 1
+                return arms[m.end():i - 1]
+
+            for nm in ("Committing", "Aborting"):
+                ok = ok and not re.search(r"tx\s*\.\s*phase\s*=[^=]", arm(nm))
+            prep = arm("Prepared")
+            cm = re.search(r"tx\s*\.\s*phase\s*=\s*TxPhase::Committing", prep)
+            g = re.search(r"else\s+if\s+tx\s*\.\s*all_yes\s*\(\s*\)\s*\{", prep)
+            ok = ok and bool(cm and g and g.end() <= cm.start() and "}" not in prep[g.end():cm.start()])
+            ok = ok and len(re.findall(r"tx\s*\.\s*phase\s*=\s*TxPhase::Committing", body)) == 1
+            return ok
+
+        def sweeps_keep():
+            ok = True
+            for fn in ("cleanup_stale", "recover"):
+                _, b = find_fn(src, fn, after=r"impl\s+TxParticipant\b")
+                ok = ok and "decided" not in b
+            return ok
 
         def remembers():
             _, pb = find_fn(src, "prepare", after=r"impl\s+TxParticipant\b")
@@ -72,7 +119,10 @@ def generate(repo):
         item("gen_vote_needs_preparing", vote_gate)
         item("gen_prepare_writes_store", prepare_writes)
         item("gen_abort_applies_undo", abort_undo)
-        item("gen_timeouts_any_phase", timeouts_any)
+        item("gen_timeouts_spare_committing", timeouts_any)
+        item("gen_abort_refuses_committing", abort_refuses)
+        item("gen_recover_shape", recover_shape)
+        item("gen_sweeps_keep_decided", sweeps_keep)
     text = HEADER + "From NV.Common Require Import Base.\n\n" + "".join(
         "Definition %s : bool := %s.\n" % (k, "true" if v else "false") for k, v in vals.items())
     return text, items
